@@ -269,13 +269,17 @@ theorem vertexSet_refold (h h' : Heap) (s : Step Val) (pm m : MNode Val) (v : Va
     · simp at hs
   · simp at hs
 
+def nameStepV : Name → Step Val
+  | .key k => .key k
+  | .idx i => .idx i
+
 /-- **`vertex.pop` on the tree**: the document afterwards unfolds to the old tree without the
 entry, at the location of the match's parent; nothing else changed, no aliasing appears -/
 theorem vertexPop_refold (h h' : Heap) (last : Option (Step Val)) (m : MNode Val) (root : Val) (j : J)
     (hp : vertexPop h last m = .ok h') (hu : UnfJ h j root) (hsep : (fpJ h j root).Nodup)
     (hloc : ∀ p, m.parent = some p → walk (hview h) root p.loc = some p.data) :
-    ∃ p nm j', m.parent = some p ∧ J.popAt j p.loc nm = some j' ∧ UnfJ h' j' root ∧ (fpJ h' j' root).Nodup ∧
-      ∀ x ∈ fpJ h' j' root, x ∈ fpJ h j root := by
+    ∃ p nm j', m.parent = some p ∧ last = some (nameStepV nm) ∧ J.popAt j p.loc nm = some j' ∧ UnfJ h' j' root ∧
+      (fpJ h' j' root).Nodup ∧ ∀ x ∈ fpJ h' j' root, x ∈ fpJ h j root := by
   unfold vertexPop at hp
   cases hpar : m.parent with
   | none => simp [hpar] at hp
@@ -307,7 +311,7 @@ theorem vertexPop_refold (h h' : Heap) (last : Option (Step Val)) (m : MNode Val
               · intro x hx; rw [p6, p8] at hx; left; exact u2 x hx
               · intro n1 _; rw [p6, p8]; exact u3 n1)
             obtain ⟨_, j', g1, g2, g3, g4⟩ := refold h id _ _ _ hb p.loc root j hu hsep (by simp) hl
-            exact ⟨p, .key k, j', rfl, g1, g2, g3, fun x hx => by simpa using g4 x hx⟩
+            exact ⟨p, .key k, j', rfl, rfl, g1, g2, g3, fun x hx => by simpa using g4 x hx⟩
         · simp at hp
       · simp at hp
     · -- index
@@ -337,7 +341,7 @@ theorem vertexPop_refold (h h' : Heap) (last : Option (Step Val)) (m : MNode Val
                 · intro x hx; left; exact u2 x hx
                 · intro n1 _; exact u3 n1)
               obtain ⟨_, j', g1, g2, g3, g4⟩ := refold h id _ _ _ hb p.loc root j hu hsep (by simp) hl
-              exact ⟨p, .idx i, j', rfl, g1, g2, g3, fun x hx => by simpa using g4 x hx⟩
+              exact ⟨p, .idx i, j', rfl, rfl, g1, g2, g3, fun x hx => by simpa using g4 x hx⟩
         · simp at hp
       · simp at hp
     · simp at hp
